@@ -355,7 +355,7 @@ func synthCert(g *RNG, idx []string) *ObjSpec {
 				}
 				if g.Chance(0.35) {
 					txt := pick(g, []string{"short notice", strings.Repeat("n", 150), strings.Repeat("notice ", 40), "Ünïcödé notice", ""})
-					quals = append(quals, dseq(doid("1.3.6.1.5.5.7.2.2"), dseq(dstr(pick(g, []string{"utf8", "bmp", "ia5", "visible"}), txt))))
+					quals = append(quals, dseq(doid("1.3.6.1.5.5.7.2.2"), dseq(dstr(pick(g, []string{"utf8", "bmp", "bmp", "ia5", "visible"}), txt))))
 				}
 				if len(quals) > 0 {
 					pols = append(pols, dseq(doid(synthPolicies[j]), dseq(quals...)))
